@@ -4,7 +4,7 @@ import StepModel.ComplexSafeTop
 import StepModel.ComplexSemHead
 import StepModel.ComplexForest3
 import StepModel.ComplexForestAgree
-import StepModel.ComplexInit
+import StepModel.ComplexInitLemmas
 import StepModel.ComplexAccept
 /-!
 # C08 — complex instances are accepted exactly when the supertype constraints allow them
